@@ -281,13 +281,12 @@ def unnestSvg (svgUid : Nat) (pw ph : Float) : (fuel : Nat) → DocM (List Node)
   let clipped := Node.elem cgu (Node.svgTag "g") [("clip-path", "url(#" ++ cid ++ ")")] [g]
   pure [clip, clipped]
 
-/-- `resolve_nested_svgs(inplace=True)`; returns whether the Python method returns `self`
-    (it returns None when there is nothing nested) -/
+/-- `resolve_nested_svgs(inplace=True)`; returns whether the Python method returns `self` -/
 def resolveNestedSvgs : DocM Bool := do
   updateEtree
   let root ← getRoot
   let nested := iterNestedSvgs root
-  if nested.isEmpty then return false
+  if nested.isEmpty then return true
   let vb ← liftE (viewBox root)
   match vb with
   | none => fail .valueError
